@@ -133,7 +133,7 @@ func newWorld(c *hx.Ctx) *world {
 		}
 	}
 	w.roles = [][]byte{[]byte("r0"), []byte("r1"), []byte("r2"), {}, []byte("role-with-a-longer-name\x00\xff")}
-	w.fns = []string{"f0", "f1", "f2", "f3", "", "F0", "transfer"}
+	w.fns = []string{"f0", "f1", "f2", "f3", "", "F0", "transfer", "approve", "f", "f00", "f0\x00"}
 	nkeys := []int{1, 2, 2, 1, 1, 1, 0}
 	for i := 0; i < nIDs; i++ {
 		id := &ident{}
@@ -272,6 +272,9 @@ type runner struct {
 	stats   map[string]int
 	lastRes string
 	want    map[string]bool
+	badKeys map[string]bool
+	cur     *history // history being executed and the index of the current call
+	curIdx  int
 	// for the generator
 	expiries []uint64
 }
@@ -305,7 +308,8 @@ func (r *runner) rawGet(key []byte) ([]byte, bool) {
 	cache := storage.NewCacheDB(r.w.overlay)
 	item, err := utils.GetStorageItem(cache, key)
 	if err != nil {
-		panic(err)
+		r.c.Fail("storage:malformed-record", "a stored value is not a storage item: "+err.Error(), r.cur, hx.Hex(key), nil)
+		return nil, false
 	}
 	if item == nil {
 		return nil, false
@@ -320,28 +324,98 @@ func authKey(c common.Address, prefix byte, suffix []byte) []byte {
 	return append(k, suffix...)
 }
 
-func mustU32(src *common.ZeroCopySource) uint32 {
-	v, eof := src.NextUint32()
+// recReader decodes a stored record without ever panicking: the first problem is remembered and
+// every later read yields zero values.
+type recReader struct {
+	src *common.ZeroCopySource
+	err string
+}
+
+func (d *recReader) fail(msg string) {
+	if d.err == "" {
+		d.err = msg
+	}
+}
+func (d *recReader) u32() uint32 {
+	if d.err != "" {
+		return 0
+	}
+	v, eof := d.src.NextUint32()
 	if eof {
-		panic("c41: short record")
+		d.fail("record ends inside a uint32")
+		return 0
 	}
 	return v
 }
-func mustVarBytes(src *common.ZeroCopySource) []byte {
-	d, _, irr, eof := src.NextVarBytes()
-	if irr || eof {
-		panic("c41: bad var bytes in record")
+func (d *recReader) u8() uint8 {
+	if d.err != "" {
+		return 0
 	}
-	return d
-}
-func readToken(src *common.ZeroCopySource) string {
-	role := mustVarBytes(src)
-	exp := mustU32(src)
-	lvl, eof := src.NextUint8()
+	v, eof := d.src.NextUint8()
 	if eof {
-		panic("c41: short token")
+		d.fail("record ends inside a uint8")
+		return 0
 	}
+	return v
+}
+func (d *recReader) varBytes() []byte {
+	if d.err != "" {
+		return nil
+	}
+	v, _, irr, eof := d.src.NextVarBytes()
+	if eof {
+		d.fail("record ends inside a length-prefixed string (it announces more items than it holds)")
+		return nil
+	}
+	if irr {
+		d.fail("non-canonical length prefix")
+		return nil
+	}
+	return v
+}
+func (d *recReader) token() string {
+	role := d.varBytes()
+	exp := d.u32()
+	lvl := d.u8()
 	return fmt.Sprintf("(mkTok %s %d %d)", hx.CoqBytes(role), exp, lvl)
+}
+
+// count reads the leading item count; an absurd count is a malformed record, not a reason to loop.
+func (d *recReader) count(total int) uint32 {
+	n := d.u32()
+	if uint64(n) > uint64(total) {
+		d.fail(fmt.Sprintf("record announces %d items in %d bytes", n, total))
+		return 0
+	}
+	return n
+}
+func (d *recReader) end() {
+	if d.err == "" && d.src.Len() != 0 {
+		d.fail(fmt.Sprintf("%d trailing bytes", d.src.Len()))
+	}
+}
+
+// malformed reports a stored record that does not parse back (once per key) and yields the
+// observation that never matches the model.
+func (r *runner) malformed(kind string, key, raw []byte, why string) string {
+	if r.badKeys == nil {
+		r.badKeys = map[string]bool{}
+	}
+	if !r.badKeys[string(key)] {
+		r.badKeys[string(key)] = true
+		var upto interface{}
+		if r.cur != nil {
+			n := r.curIdx + 1
+			if n > len(r.cur.Ops) {
+				n = len(r.cur.Ops)
+			}
+			upto = &history{Stub: r.cur.Stub, Tag: r.cur.Tag, Ops: append([]opRec{}, r.cur.Ops[:n]...)}
+		}
+		r.c.Fail("storage:malformed-record", "a stored auth record written by an accepted call does not parse back: "+kind+": "+why,
+			upto, map[string]interface{}{"key": hx.Hex(key), "value": hx.Hex(raw)}, "a well-formed "+kind+" record")
+	}
+	r.c.Count("storage:malformed:" + kind)
+	return "OBad"
 }
 
 func (r *runner) obsAdmin(ci int) string {
@@ -349,47 +423,53 @@ func (r *runner) obsAdmin(ci int) string {
 	return fmt.Sprintf("(OAdmin %s %s)", r.cname(ci), hx.CoqOpt(ok, r.w.bname(v)))
 }
 func (r *runner) obsFuncs(ci, ri int) string {
-	v, ok := r.rawGet(authKey(r.caddr[ci], 0x02, r.w.roles[ri]))
+	key := authKey(r.caddr[ci], 0x02, r.w.roles[ri])
+	v, ok := r.rawGet(key)
 	var items []string
 	if ok {
-		src := common.NewZeroCopySource(v)
-		n := mustU32(src)
-		for i := uint32(0); i < n; i++ {
-			items = append(items, r.w.bname(mustVarBytes(src)))
+		d := &recReader{src: common.NewZeroCopySource(v)}
+		n := d.count(len(v))
+		for i := uint32(0); i < n && d.err == ""; i++ {
+			items = append(items, r.w.bname(d.varBytes()))
 		}
-		if src.Len() != 0 {
-			panic("c41: trailing bytes in roleFuncs record")
+		d.end()
+		if d.err != "" {
+			return r.malformed("roleFuncs", key, v, d.err)
 		}
 	}
 	return fmt.Sprintf("(OFuncs %s ro%d %s)", r.cname(ci), ri, hx.CoqOpt(ok, hx.CoqList(items)))
 }
 func (r *runner) obsTokens(ci, ii int) string {
-	v, ok := r.rawGet(authKey(r.caddr[ci], 0x03, r.w.ids[ii].id))
+	key := authKey(r.caddr[ci], 0x03, r.w.ids[ii].id)
+	v, ok := r.rawGet(key)
 	var items []string
 	if ok {
-		src := common.NewZeroCopySource(v)
-		n := mustU32(src)
-		for i := uint32(0); i < n; i++ {
-			items = append(items, readToken(src))
+		d := &recReader{src: common.NewZeroCopySource(v)}
+		n := d.count(len(v))
+		for i := uint32(0); i < n && d.err == ""; i++ {
+			items = append(items, d.token())
 		}
-		if src.Len() != 0 {
-			panic("c41: trailing bytes in roleTokens record")
+		d.end()
+		if d.err != "" {
+			return r.malformed("roleTokens", key, v, d.err)
 		}
 	}
 	return fmt.Sprintf("(OTokens %s i%d %s)", r.cname(ci), ii, hx.CoqOpt(ok, hx.CoqList(items)))
 }
 func (r *runner) obsDeleg(ci, ii int) string {
-	v, ok := r.rawGet(authKey(r.caddr[ci], 0x04, r.w.ids[ii].id))
+	key := authKey(r.caddr[ci], 0x04, r.w.ids[ii].id)
+	v, ok := r.rawGet(key)
 	var items []string
 	if ok {
-		src := common.NewZeroCopySource(v)
-		n := mustU32(src)
-		for i := uint32(0); i < n; i++ {
-			root := mustVarBytes(src)
-			items = append(items, fmt.Sprintf("(mkDel %s %s)", r.w.bname(root), readToken(src)))
+		d := &recReader{src: common.NewZeroCopySource(v)}
+		n := d.count(len(v))
+		for i := uint32(0); i < n && d.err == ""; i++ {
+			root := d.varBytes()
+			items = append(items, fmt.Sprintf("(mkDel %s %s)", r.w.bname(root), d.token()))
 		}
-		if src.Len() != 0 {
-			panic("c41: trailing bytes in Status record")
+		d.end()
+		if d.err != "" {
+			return r.malformed("Status", key, v, d.err)
 		}
 	}
 	return fmt.Sprintf("(ODeleg %s i%d %s)", r.cname(ci), ii, hx.CoqOpt(ok, hx.CoqList(items)))
@@ -453,6 +533,7 @@ func (r *runner) scanKeys(h *history) {
 func (r *runner) exec(h *history, idx int) {
 	o := &h.Ops[idx]
 	w := r.w
+	r.cur, r.curIdx = h, idx
 	ci := o.C
 	ca := r.caddr[ci]
 	sp := r.spec[ci]
@@ -575,6 +656,16 @@ func (r *runner) exec(h *history, idx int) {
 	case "funcs", "ids":
 		if res == resTrue && (sp.admin == nil || *sp.admin != sA || !pv(o.A)) {
 			unauthorized("caller is not the admin or did not prove its identity")
+		}
+		if res != resTrue && sp.admin != nil && *sp.admin == sA && pv(o.A) && len(role) > 0 {
+			allValid := true
+			for _, p := range o.Persons {
+				allValid = allValid && w.ids[p].valid
+			}
+			if allValid {
+				r.c.Fail("deny:admin-call", "an assignment by the admin, with a valid identity proof and well-formed arguments, was not accepted",
+					map[string]interface{}{"history": h, "step": idx}, res, resTrue)
+			}
 		}
 		if o.Kind == "funcs" {
 			obs = append(obs, r.obsFuncs(ci, o.Role))
